@@ -204,6 +204,24 @@ trait ExecuteInPipeline<SE: extensions::ShellExtensions> {
     ) -> Result<ExecutionSpawnResult, error::Error>;
 }
 
+/// Verification hook: records a program / top-level command boundary with the depths of the
+/// scope stack and the call stack.
+#[cfg(brush_verif)]
+fn verif_boundary(ev: &str, shell: &Shell<impl extensions::ShellExtensions>) {
+    let (env, scopes) = shell.env().verif_state();
+    let (cs, frames) = shell.call_stack().verif_state();
+    #[allow(clippy::cast_possible_wrap)]
+    crate::verif::event(
+        ev,
+        &[
+            ("env", crate::verif::i(env)),
+            ("cs", crate::verif::i(cs)),
+            ("scopes", scopes as i64),
+            ("frames", frames as i64),
+        ],
+    );
+}
+
 #[async_trait::async_trait]
 impl Execute for ast::Program {
     async fn execute(
@@ -212,6 +230,9 @@ impl Execute for ast::Program {
         params: &ExecutionParameters,
     ) -> Result<ExecutionResult, error::Error> {
         let mut result = ExecutionResult::success();
+
+        #[cfg(brush_verif)]
+        verif_boundary("prog_begin", shell);
 
         for command in &self.complete_commands {
             // Execute the command and handle any errors without immediately propagating them.
@@ -229,11 +250,17 @@ impl Execute for ast::Program {
             // Update status
             shell.set_last_exit_status(result.exit_code.into());
 
+            #[cfg(brush_verif)]
+            verif_boundary("cmd_done", shell);
+
             // Check if we should stop executing subsequent commands
             if !result.is_normal_flow() {
                 break;
             }
         }
+
+        #[cfg(brush_verif)]
+        verif_boundary("prog_end", shell);
 
         Ok(result)
     }
